@@ -174,7 +174,12 @@ def gen_sequence(rng, cfg, p, nops):
     swaps = bool(d["SWAPS"]) and not compr
     rows = bool(d["ROWS"])
     nr = rng.randint(2, 8)
-    B = 8
+    # compressed matrices: in four sequences out of ten few rows and many columns, mostly additions: classes of identical columns
+    # merge, split off and merge again all the time (union-find ranks grow, representatives change slot)
+    merging = compr and rng.random() < 0.4
+    if merging:
+        nr = rng.choice([2, 3, 3, 4])
+    B = 16 if merging else 8
     mode = rng.choice([0, 0, nr, B]) if not compr else rng.choice([0, 0, B])
     sh = Shadow(p, nr, mapc)
     ops = []
@@ -206,9 +211,9 @@ def gen_sequence(rng, cfg, p, nops):
                 return rng.choice(em)
         return rng.choice(pres)
 
-    ninit = rng.randint(1, 5)
+    ninit = rng.randint(8, 14) if merging else rng.randint(1, 5)
     for i in range(ninit):
-        if i and rng.random() < 0.25 and sh.cols:
+        if i and rng.random() < (0.5 if merging else 0.25) and sh.cols:
             src = rng.choice(list(sh.cols.values()))
             es = [(r, x) for r, x in enumerate(src) if x]      # duplicate of an existing column (compression classes)
         else:
@@ -217,6 +222,8 @@ def gen_sequence(rng, cfg, p, nops):
         do_insert(sh.next, es)
     while len(ops) < nops:
         k = rng.random()
+        if merging:
+            k *= 0.6                # additions five times out of six
         if k < 0.50:
             form = rng.choice(["ADD", "MTA", "MSA", "ADD", "MTA", "MSA", "ADDR", "MTAR", "MSAR"])
             t = pick_col(prefer_empty=True)
@@ -321,6 +328,43 @@ def gen_sequence(rng, cfg, p, nops):
         q = rng.choice([0.3, 0.6, 0.9])
         ops = [("Q " + o) if (i >= ninit and i < len(ops) - 1 and rng.random() < q) else o for i, o in enumerate(ops)]
     return cfg.header(p, nr, B, mode), ops, tags
+
+
+def gen_merge_tree(rng, cfg, p):
+    """compressed matrices: groups of identical columns (sizes 1-3) merged into one another along a random tree, each merge by
+    adding a fresh helper column (target content minus own content) to one member of the group that moves: union-find ranks
+    of every shape, the surviving representative on either side, stored columns changing slot"""
+    g = rng.randint(3, 6)
+    nr = g + rng.randint(0, 1)
+    ops = []
+    members = {}                    # group -> list of column indices
+    content = {}                    # group -> row of its unit vector
+    nxt = 0
+    order = list(range(g))
+    rng.shuffle(order)
+    for k in order:
+        content[k] = k
+        members[k] = []
+    slots = [k for k in order for _ in range(rng.choice([1, 2, 2, 3]))]
+    if rng.random() < 0.5:
+        rng.shuffle(slots)
+    for k in slots:
+        ops.append("IC %d:1" % content[k])
+        members[k].append(nxt)
+        nxt += 1
+    alive = list(order)
+    while len(alive) > 1 and nxt < 30:
+        a, b = rng.sample(alive, 2)          # group a moves into group b
+        es = sorted([(content[b], 1), (content[a], (p - 1) % p or 1)])
+        ops.append("IC " + " ".join("%d:%d" % e for e in es))
+        h = nxt
+        nxt += 1
+        ops.append("%s %d %d" % (rng.choice(["ADD", "ADD", "ADDR"]), h, rng.choice(members[a])))
+        members[b] += members[a]
+        alive.remove(a)
+        if rng.random() < 0.3:
+            ops.append("NOP")
+    return cfg.header(p, nr, 32, 0), ops, {"merge-tree"}
 
 
 def boundary_sequences(cfg, p):
@@ -491,9 +535,12 @@ def check(ctx, replay=None):
             if not c.d["Z2"]:
                 for (h, ops) in boundary_sequences(c, BIG)[:nbig]:
                     work.append((c, h, ops, {"boundary-stream"}))
-            for i in range(nseq):
+            for i in range(nseq * (4 if c.d["COMPR"] else 1)):     # compressed matrices: more sequences (class-merging histories)
                 p = 2 if c.d["Z2"] else BIG if i < nbig else (primes[i % 2] if i % 5 else rng.choice(primes))
-                h, ops, tags = gen_sequence(rng, c, p, rng.choice([12, 25, 50]))
+                if c.d["COMPR"] and i % 3 == 2:
+                    h, ops, tags = gen_merge_tree(rng, c, p)
+                else:
+                    h, ops, tags = gen_sequence(rng, c, p, rng.choice([12, 25, 50]))
                 work.append((c, h, ops, tags))
     bins = build_all(ctx, cfgs)
     ctx.log("%d option sets, %d operation sequences" % (len(cfgs), len(work)))
